@@ -169,6 +169,11 @@ impl Opts {
 
 pub static ALLOW_SUBSET_RANDOM: std::sync::atomic::AtomicBool = std::sync::atomic::AtomicBool::new(false);
 
+/// C16: declare interval variables with a range of about ±2·10⁹ and narrow them to the model's domain
+/// by unary linear constraints posted *after* all other constraints (so that the existing
+/// propagators see bound changes larger than 2³¹ in one event). Set per case by the stream.
+pub static WIDE_DECL: std::sync::atomic::AtomicBool = std::sync::atomic::AtomicBool::new(false);
+
 pub const NUM_VARSEL: usize = 10;
 pub const NUM_VALSEL: usize = 14;
 
@@ -515,17 +520,19 @@ pub fn make_brancher(spec: &BrancherSpec, solver: &Solver, vars: &[DomainId]) ->
 pub struct StopAt {
     pub polls: u64,
     pub stop_at: Option<u64>,
-    /// hard cap so that a non-terminating search is reported rather than hanging the harness
+    /// hard cap so that a non-terminating search is reported rather than hanging the harness; it
+    /// applies to the polls since the last reset of `since` (one solve of an enumeration)
     pub cap: u64,
     pub capped: bool,
+    pub since: Rc<std::cell::Cell<u64>>,
 }
 
 impl StopAt {
     pub fn never() -> Self {
-        StopAt { polls: 0, stop_at: None, cap: poll_cap(), capped: false }
+        StopAt { polls: 0, stop_at: None, cap: poll_cap(), capped: false, since: Default::default() }
     }
     pub fn at(k: u64) -> Self {
-        StopAt { polls: 0, stop_at: Some(k), cap: poll_cap(), capped: false }
+        StopAt { polls: 0, stop_at: Some(k), cap: poll_cap(), capped: false, since: Default::default() }
     }
 }
 
@@ -533,7 +540,9 @@ impl TerminationCondition for StopAt {
     fn should_stop(&mut self) -> bool {
         let i = self.polls;
         self.polls += 1;
-        if i >= self.cap {
+        let since = self.since.get();
+        self.since.set(since + 1);
+        if since >= self.cap {
             self.capped = true;
             return true;
         }
